@@ -2,14 +2,14 @@ from run import Job
 
 MANIFEST = dict(
     category="other",
-    text="Fold construction and leave-one-out data flow decided on the real bodies for bounded concrete shapes with symbolic data: the random "
+    text="Fold construction and cross-validation data flow (leave-one-out, k-fold with user labels, bootstrap driver) decided on the real bodies for bounded concrete shapes with symbolic data: the random "
          "group table is a partition of the objects (every object in exactly one cell, for group counts that do not divide the object count); "
          "the split puts exactly the group's rows in the test part and exactly the other rows in the training part, with every response "
          "column, including more responses than predictors; in LeaveOneOut and in KFoldCV with user labels (unbalanced, non-contiguous) each worker is started with training operands equal to the data "
          "minus the held-out object(s) and the test operand equal to that object, each object is held out exactly once for every thread count, "
          "the stored prediction is that worker's output, residual = prediction - matching response. Learners enter by contract (they read "
          "only the operands they are given), which is what makes the prediction out-of-sample.",
-    note="Bounded shapes (objects <= 4, predictors <= 2, responses <= 3, threads <= 3). Learners (PLS/MLR) are represented by their contract "
+    note="Bounded shapes (objects <= 5, predictors <= 2, responses <= 3, threads <= 4). Learners (PLS/MLR) are represented by their contract "
          "through a pthread monitor; determinism of the learner is assumed. BootstrapRandomGroupsCV is checked for worker count, seeding, private outputs and output wiring (worker bodies enter by contract; their building blocks, the split and the group generator, are checked separately). Termination of the rejection loop is not decided. "
          "'Equals a model refitted through the public API' as a numerical equality and finiteness of predictions are not decided.",
     technique="CBMC on the real cross-validation bodies with a pthread monitor playing the learner contract; loop contract on the rejection loop; bounded shapes")
